@@ -265,7 +265,7 @@ func Supervise(o Options) int {
 				"--scratch", wdir, "--out", out, "--progress", prog)
 			cmd.Stdout = lf
 			cmd.Stderr = lf
-			cmd.Env = append(os.Environ(), "GORACE=halt_on_error=0 log_path="+filepath.Join(wdir, "race"))
+			cmd.Env = append(os.Environ(), "VERIF_DIR="+o.VerifDir, "GORACE=halt_on_error=0 log_path="+filepath.Join(wdir, "race"))
 			err := cmd.Run()
 			lf.Close()
 			var sr ShardResult
